@@ -12,6 +12,7 @@ import (
 	"math/rand"
 	"net"
 	"net/http"
+	"net/http/httptest"
 	"os"
 	"strings"
 	"time"
@@ -245,6 +246,54 @@ func nano(in, out string, rng *rand.Rand) {
 	}
 }
 
+type call struct {
+	H    string `json:"h"`
+	Code int    `json:"code"`
+}
+
+func helpers(out string) {
+	w := vio.Create(out)
+	defer w.Close()
+	alphabet := []call{{"WriteHeader", 201}, {"WriteHeader", 404}, {"Write", 0}, {"Flush", 0}, {"Respond200", 0}, {"Respond200Body", 0},
+		{"RespondJson", 0}, {"Redirect", 302}, {"Error404", 0}, {"Error500", 0}}
+	var gen func(cur []call)
+	gen = func(cur []call) {
+		rr := httptest.NewRecorder()
+		req := httptest.NewRequest("GET", "/x", nil)
+		s := &httpd.Store{W: &httpd.ResponseWriter{Origin: rr}, R: req}
+		for _, c := range cur {
+			switch c.H {
+			case "WriteHeader":
+				s.W.WriteHeader(c.Code)
+			case "Write":
+				s.W.Write([]byte("b"))
+			case "Flush":
+				s.W.Flush()
+			case "Respond200":
+				s.Respond200(nil)
+			case "Respond200Body":
+				s.Respond200([]byte("body"))
+			case "RespondJson":
+				s.RespondJson(map[string]int{"a": 1})
+			case "Redirect":
+				s.Redirect("/elsewhere", c.Code)
+			case "Error404":
+				s.Error404("nope")
+			case "Error500":
+				s.Error500("oops")
+			}
+		}
+		calls := append([]call{}, cur...)
+		w.Put(map[string]any{"calls": calls, "status": s.W.Status, "wire": rr.Code})
+		if len(cur) < 3 {
+			for _, c := range alphabet {
+				gen(append(cur[:len(cur):len(cur)], c))
+			}
+		}
+	}
+	gen(nil)
+}
+
 func main() {
 	mode := flag.String("mode", "strs", "")
 	in := flag.String("in", "scen.ndjson", "")
@@ -261,5 +310,7 @@ func main() {
 		iprange(*out, rng)
 	case "nano":
 		nano(*in, *out, rng)
+	case "helpers":
+		helpers(*out)
 	}
 }
